@@ -862,7 +862,7 @@ def classify_recursion(f, call, idx=None):
     recv = call.func.value if isinstance(call.func, ast.Attribute) else None
     args = list(call.args) + [k.value for k in call.keywords]
 
-    def is_child(e):
+    def is_child(e, _depth=0):
         # an element obtained by iterating / looking up a container of the current activation (or a field of such an element)
         while isinstance(e, (ast.Attribute, ast.Subscript)) and not (isinstance(e, ast.Attribute) and isinstance(e.value, ast.Name) and e.value.id == "self"):
             e = e.value
@@ -875,6 +875,11 @@ def classify_recursion(f, call, idx=None):
                     v = n.value
                     if isinstance(v, ast.Subscript) or (isinstance(v, ast.Call) and isinstance(v.func, ast.Attribute) and v.func.attr in ("get", "pop")):
                         return True
+                # a component of a child record:  window, _, _ = record
+                if isinstance(n, ast.Assign) and len(n.targets) == 1 and isinstance(n.targets[0], ast.Tuple) and \
+                        any(isinstance(t_, ast.Name) and t_.id == e.id for t_ in n.targets[0].elts) and _depth < 3 and \
+                        isinstance(n.value, (ast.Name, ast.Subscript, ast.Attribute)) and is_child(n.value, _depth + 1):
+                    return True
         if isinstance(e, ast.NamedExpr):
             return is_child(e.value)
         return False
@@ -1004,8 +1009,8 @@ def raise_types(rep, idx):
     for f in idx.all_functions():
         for n in ast.walk(f.node):
             if isinstance(n, ast.Raise):
-                if n.exc is None:
-                    continue                                            # re-raise
+                if n.exc is None or getattr(n, "_inlined_from", None):
+                    continue                                            # re-raise / copy of a helper's raise (classified there)
                 e = n.exc.func if isinstance(n.exc, ast.Call) else n.exc
                 if isinstance(n.exc, ast.Name):
                     # raise <local>: an exception object built earlier in the same function -- classify its constructor
